@@ -2,11 +2,14 @@ package props
 
 import (
 	"fmt"
+	"strings"
 
 	"github.com/cbehopkins/gkvlite"
 
+	"verif/internal/conc"
 	"verif/internal/driver"
 	"verif/internal/gen"
+	"verif/internal/sched"
 )
 
 // C19: lazy loading - opening is O(1) and key-only operations never read values.
@@ -17,12 +20,12 @@ var mixC19 = Mix{Set: 26, Delete: 9, Get: 2, GetItem: 8, Exist: 5, MinMax: 6, To
 func init() {
 	register(&Prop{
 		ID: "C19", Level: "exploration",
-		Rule:        "the lazy-read monitor lives inside the instrumented StoreFile and judges EVERY ReadAt with the API call in progress as a tag. (1) During NewStore on a file that ends in a root record every read must lie inside that root record and there may be at most 4 of them; right after the open the hook walk must find no cached node or item in any collection; dedicated cases open files holding 10, 100 and 1000 items of 1-4 KB values and require the identical number of reads and bytes. (2) During key-only operations (GetItem/MinItem/MaxItem and all visit kinds and iterators with withValue=false, Exist, Len, Set/SetItem, Delete - on the store and through snapshots) no read may intersect the value bytes of ANY item record reachable from any root record ever completed in the file (ranges come from the independent decoder, run on every completed root record). Cases = random histories with 1-4 KB values over all cache states (fresh, partially loaded, evicted, key-only cached items) followed by a sweep of every key-only operation over every present key and absent targets. Non-trivial = key-only operations executed against a re-opened or evicted tree holding values; distinct = op-trace hash.",
+		Rule:        "the lazy-read monitor lives inside the instrumented StoreFile and judges EVERY ReadAt with the API call in progress as a tag. (1) During NewStore on a file that ends in a root record every read must lie inside that root record and there may be at most 4 of them; right after the open the hook walk must find no cached node or item in any collection; dedicated cases open files holding 10, 100 and 1000 items of 1-4 KB values and require the identical number of reads and bytes. (2) During key-only operations (GetItem/MinItem/MaxItem and all visit kinds and iterators with withValue=false, Exist, Len, Set/SetItem, Delete - on the store and through snapshots) no read may intersect the value bytes of ANY item record reachable from any root record ever completed in the file (ranges come from the independent decoder, run on every completed root record). Cases = random histories with 1-4 KB values over all cache states (fresh, partially loaded, evicted, key-only cached items) followed by a sweep of every key-only operation over every present key and absent targets; plus concurrent cases: 2-4 readers doing key-only visits / Min / Max next to a mutator and a flusher on a cold (evicted or re-opened) file under the deterministic yield-point scheduler (switches at every file call), so that two readers load the same uncached item at the same time. Non-trivial = key-only operations executed against a re-opened or evicted tree holding values; distinct = op-trace hash.",
 		Assumptions: []string{"zero-length values have no byte range", "with-value operations are free to read values"},
-		NumCases:    func(tier string) int { return pick(tier, 400, 15000) + 12 },
+		NumCases:    func(tier string) int { return pick(tier, 400, 15000) + 12 + pick(tier, 600, 20000) },
 		Run:         runC19,
 		Floor: func(tier string, st map[string]int64) string {
-			for _, k := range []string{"c19.key-only-reads", "c19.value-ranges", "c19.opens-checked", "c19.open-size-series", "op.Reopen", "evicted", "c19.sweep-ops"} {
+			for _, k := range []string{"c19.key-only-reads", "c19.value-ranges", "c19.opens-checked", "c19.open-size-series", "op.Reopen", "evicted", "c19.sweep-ops", "c19.concurrent-executions"} {
 				if st[k] == 0 {
 					return "no " + k + " observed"
 				}
@@ -38,6 +41,9 @@ func runC19(ctx *Ctx, idx int) Result {
 	SeedGlobalRand(seed)
 	if idx < 12 {
 		return runC19OpenSeries(ctx, idx, r)
+	}
+	if idx >= 12+pick(ctx.Tier, 400, 15000) {
+		return runC19Concurrent(ctx, idx, r)
 	}
 	cfg := driver.Config{TrackValues: true, Walk: true, ReadbackK: 0}
 	hc := HistCfg{Steps: r.Range(25, 70), NColls: r.Range(1, 2), NKeys: r.Range(4, 16), KeyClass: gen.KeysShort, ValClass: []gen.ValClass{gen.ValsBig, gen.ValsMixed}[r.Intn(2)],
@@ -160,4 +166,42 @@ func runC19OpenSeries(ctx *Ctx, idx int, r *gen.R) Result {
 	ctx.Stats["c19.open-size-series"]++
 	return Result{Hash: gen.Mix(uint64(idx), 19), NonTrivial: true, Viol: viol,
 		Sample: map[string]interface{}{"index": idx, "open_series": true, "file_sizes": sizes, "open_costs_reads_bytes_stats": fmt.Sprintf("%+v", costs)}}
+}
+
+// runC19Concurrent: key-only readers racing to load the same uncached items.
+func runC19Concurrent(ctx *Ctx, idx int, r *gen.R) Result {
+	p := c05Program(r, false, 0)
+	p.MemOnly = false
+	p.Cold = 1 + r.Intn(2)
+	for i := range p.Readers {
+		for j := range p.Readers[i] {
+			st := &p.Readers[i][j]
+			st.WithVal = false
+			if st.K == conc.RGet || st.K == conc.RSnapshot || st.K == conc.RTotals {
+				st.K = conc.RVisit
+				st.Key = nil
+				st.Stop = -1
+			}
+		}
+	}
+	for len(p.Readers) < 2 {
+		p.Readers = append(p.Readers, append([]conc.Step{}, p.Readers[0]...))
+	}
+	s := sched.New(&sched.Random{Next: r.Intn, Stick: []int{0, 30, 60}[r.Intn(3)]})
+	h, f := conc.Run(p, conc.Mode{Sched: s})
+	ctx.Stats["c19.concurrent-executions"]++
+	ctx.Stats["c19.key-only-reads"] += f.TagCalls["Visit(k)"] + f.TagCalls["MinMax(k)"]
+	ctx.Stats["c19.value-ranges"] += int64(f.NumValueRanges())
+	var v *Viol
+	if len(f.Violations) > 0 {
+		sig := f.Violations[0]
+		if i := strings.Index(sig, ": "); i > 0 {
+			sig = sig[:i]
+		}
+		v = &Viol{Sig: sig + "/concurrent", Detail: "[concurrent key-only readers, deterministic schedule] " + f.Violations[0]}
+	} else if len(h.Panics) > 0 || h.Hung != "" {
+		v = &Viol{Sig: "C19/concurrent/panic-or-hang", Detail: strings.Join(h.Panics, "\n") + h.Hung}
+	}
+	return Result{Hash: s.Hash(), NonTrivial: f.NumValueRanges() > 0, Viol: v,
+		Sample: map[string]interface{}{"index": idx, "mode": "concurrent key-only readers", "readers": len(p.Readers), "decisions": len(s.Decisions)}}
 }
